@@ -14,11 +14,16 @@ class SliceError(Exception):
 class Slice(NullCell):
 
     def __init__(self, bits: TvmBitarray, refs: typing.List[Cell], type_: int = -1):
-        if not isinstance(bits, TvmBitarray):
-            # a plain bitarray has no underflow check: over-reads would silently return short data
+        # a slice reads by deleting from its bit string: it works on its own copy (in big-endian bit order), never on the
+        # array it was given (which may be a cell's own); a plain bitarray has no underflow check, so it is wrapped
+        if (bits.endian() if callable(bits.endian) else bits.endian) != 'big':  # a method in bitarray 2, an attribute in 3
+            bits = TvmBitarray(1023, bits.to01())
+        elif not isinstance(bits, TvmBitarray):
             bits = TvmBitarray(1023, bits)
+        else:
+            bits = bits.copy()
         self.bits = bits
-        self.refs = refs
+        self.refs = list(refs)
         self.type_ = type_
         # super().__init__(bits, refs, type_)
         self.ref_offset = 0
